@@ -6,8 +6,9 @@ from .modelcheck import run_property
 
 def run(tier, seed, verdict):
     quick = tier != "thorough"
-    runs = [mr.ModelRun("MC_C04_quick.cfg" if quick else "MC_C04.cfg", seed, probes=("reopen",),
-                        name_pools=[0, 1, 2, 4], stride=1 if quick else 4),
+    runs = [mr.ModelRun("MC_C04_quick.cfg", seed, probes=("reopen",), name_pools=[0, 1, 2, 4], stride=1),
+            mr.ModelRun("MC_SimLinks.cfg", seed + 2, probes=("reopen",), name_pools=[0, 2],
+                        simulate="num=%d" % (10 if quick else 300), depth=34),
             mr.ModelRun("MC_C03_quick.cfg", seed + 1, probes=(), name_pools=[0, 2], stride=4,
                         accept=lambda tx: tx["act"]["name"] == "Delete")]
     return run_property(
